@@ -240,6 +240,35 @@ class Skel:
                 self.walk(a, depth + 1)
 
 
+def _walk_fields(ctx, S, u, prefix):
+    """ingredients of a returned value; for a workspace constructor they are recorded per field ("@<path>=<item>"), so that
+    an ADDED field (a gauge, a copy of a parameter kept for Debug) is told apart from a changed one"""
+    v = _unplumb(u) if u[0] == "call" else u
+    if v[0] == "agg" and not (v[1].startswith(("std::option::Option", "std::result::Result", "std::ops::", "std::task::Poll")) or v[1] in ("tuple", "array")) and v[3]:
+        S.items.add("agg:%s%s::%s" % (("@" + prefix) if prefix else "", v[1].split("::")[-1], v[2]))
+        for n, x in v[3]:
+            _walk_fields(ctx, S, x, prefix + str(n) + ".")
+        return
+    if not prefix:
+        S.walk(u)
+        return
+    S2 = Skel(ctx)
+    S2.walk(u)
+    S.open = S.open or S2.open
+    S.std |= S2.std
+    tag = "@" + prefix.rstrip(".")
+    if not S2.items:
+        S.items.add(tag + "=")
+    for it in S2.items:
+        S.items.add("%s=%s" % (tag, it))
+
+
+def _drop_added_fields(actual, ref):
+    """items of fields the reference constructor does not have are not a deviation"""
+    rf = set(x.split("=", 1)[0] for x in ref if x.startswith("@"))
+    return set(x for x in actual if not (x.startswith("@") and "=" in x and x.split("=", 1)[0] not in rf and any(r.startswith("@") for r in ref)))
+
+
 def _label_is_ws(sc):
     """a test that is about the meaning (a variant of a parameter path, or the outcome of a workspace call) rather than
     about how a std container is probed"""
@@ -357,7 +386,7 @@ def rows_of(ctx, f):
         for extra, u in _split_option(ctx, t):
             ls = labs + [K.c(x) + "=" + v for x, v in extra]
             S1 = Skel(ctx)
-            S1.walk(u)
+            _walk_fields(ctx, S1, u, "")
             ex = [(K.c(x) + "=" + v, not any(y[0] == "call" and y[1] not in _PLUMB for y in subterms(x)), x) for x, v in extra if _label_is_ws(x)]
             wkey = " & ".join(sorted(l for l, pure, _ in wslabs + ex if pure))
             conds = sorted(l for l, pure, _ in wslabs + ex if not pure)
@@ -499,6 +528,7 @@ def run(ctx, prop):
             rsk["<effects>"] = list(e.get("effects_skeleton", []))
             last = dict(last, open=last["open"] or SE.open, std=sorted(set(last["std"]) | SE.std))
         newsel = sorted(c for c in set(last["std"]) - set(e.get("std", [])) if c in _ORDER_SELECT)
+        sk = {k: sorted(_drop_added_fields(set(v), set(rsk.get(k, [])))) for k, v in sk.items()}
         same = {k: set(v) for k, v in sk.items()} == {k: set(v) for k, v in rsk.items()}
         if same and not newsel:
             ctx.note("%s %s: written differently from the reference but with the same ingredients (std-level rewrite) - accepted" % (R, _short(q)))
